@@ -60,7 +60,27 @@ def build(tier):
                               st.Gamma[a, b, cc].trunc(0), S.pre,
                               get=lambda r, a=a, b=b, cc=cc: r['st_Gamma_udd4'][a, b, cc],
                               group='st_Gamma_udd4'))
+            # request order Ricci -> Riemann -> Ricci on one instance: what the Riemann body reads from the cache it
+            # must leave as it found it (re-read values against the values read before)
+            ric_before = np.array(rel['st_Ricci_down4'], copy=True)
+            ric3_before = np.array(rel['st_Ricci_down3'], copy=True)
             R = rel['st_Riemann_down4']
+            ric_after, ric3_after = rel['st_Ricci_down4'], rel['st_Ricci_down3']
+
+            def _reread(r, key, idx):
+                r[key]
+                r['st_Ricci_down3']
+                r['st_Riemann_down4']
+                return r[key][idx]
+            for a in range(4):
+                for b in range(a, 4):
+                    obs.append(Ob(f'reread:st_Ricci_down4[{a},{b}] after st_Riemann_down4', ric_after[a, b, 0, 0, 0], ric_before[a, b, 0, 0, 0],
+                                  S.pre, get=lambda r, a=a, b=b: _reread(r, 'st_Ricci_down4', (a, b)), meta=dict(fresh_rel=True),
+                                  group='cached Ricci unchanged by the Riemann body (Ricci -> Riemann -> Ricci)'))
+                    if a < 3 and b < 3:
+                        obs.append(Ob(f'reread:st_Ricci_down3[{a},{b}] after st_Riemann_down4', ric3_after[a, b, 0, 0, 0],
+                                      ric3_before[a, b, 0, 0, 0], S.pre, get=lambda r, a=a, b=b: _reread(r, 'st_Ricci_down3', (a, b)), meta=dict(fresh_rel=True),
+                                      group='cached Ricci unchanged by the Riemann body (Ricci -> Riemann -> Ricci)'))
             for a, b, cc, d in riemann_components(tier):
                 obs.append(Ob(f'st_Riemann_down4[{a},{b},{cc},{d}]', R[a, b, cc, d, 0, 0, 0],
                               st.Riem_down[a, b, cc, d], S.pre,
@@ -223,8 +243,15 @@ def main(report, tier, seed, workers, calibrate=False):
                      'FiniteDifference.d3x/d3y/d3z -> exact jet differentiation (JetFD)',
                      'AurelCore.kappa, Lambda -> symbolic reals']
     calib = load_calib(PID)
-    with FuncTrace() as ft:
-        blocks = build(tier)
+    division_helpers(report)
+    from symx.sym import Inconclusive
+    try:
+        with FuncTrace() as ft:
+            blocks = build(tier)
+    except Inconclusive as e:
+        # a branch of the real code that the preconditions no longer decide (non-forking harness)
+        report.inconc('build', f'undecided branch while executing the real code symbolically: {e}')
+        return
     report.functions |= ft.seen
     report.extra['source_sha1'] = source_digest(FILES)
     full_t = 40 if tier == 'quick' else 240
@@ -259,6 +286,101 @@ def main(report, tier, seed, workers, calibrate=False):
     witness_sat(report, pick, 'st_Gamma_udd4[1,2,3] + 1')
 
 
+def division_helpers(report):
+    """maths.safe_division / inverse3 / inverse4 under forking symbolic execution: on every path of the real code the result
+    is a/b wherever b != 0 (0 where b == 0), and the inverse of every positive-definite 3-metric / Lorentzian 4-metric is
+    the adjugate over the determinant - for every value of the determinant, however small."""
+    from aurel import maths
+    from symx.sym import explore, Inconclusive
+    paths = q = 0
+    bad = []
+    with patched():
+        def run(c):
+            a, b = symarray('sa', ()), symarray('sb', ())
+            r = maths.safe_division(a, b)
+            a0, b0, r0 = a[0, 0, 0].t, b[0, 0, 0].t, r[0, 0, 0]
+            r0 = r0.t if isinstance(r0, SymReal) else tm.const(r0)
+            spec = tm.bor([tm.band([tm.eq(b0, tm.ZERO), tm.eq(r0, tm.ZERO)]),
+                           tm.band([tm.ne(b0, tm.ZERO), tm.eq(tm.mul(r0, b0), a0)])])
+            return c.valid(spec), spec
+        try:
+            for c, (ok, spec) in explore(run, pre=[], backend='inproc', decide_timeout=10, max_paths=64):
+                paths += 1
+                q += c.decision_queries
+                if ok is not True:
+                    c.pc.append(tm.bnot(spec))
+                    v, model = c.model()
+                    c.pc.pop()
+                    bad.append(('safe_division', {k: str(x) for k, x in model.items() if x is not None}))
+        except Inconclusive as e:
+            report.inconc('safe_division', str(e))
+        report.record('maths.safe_division(a, b) == a/b for every b != 0, 0 at b == 0 (arrays; every path)', 'unsat' if not bad else 'sat',
+                      backend='z3py-inproc', sha=f'{paths}p{q}q', group='division helpers (forking symbolic execution)')
+
+        def run3(c):
+            ga = symarray('g', (3, 3), symmetric=True)
+            gv = [[ga[i, j, 0, 0, 0].t for j in range(3)] for i in range(3)]
+            c.pre += oracle.spd_preconditions(gv)
+            inv = maths.inverse3(ga)
+            failing = None
+            for i in range(3):
+                for k in range(3):
+                    e = tm.addn([tm.mul((inv[i, j, 0, 0, 0].t if isinstance(inv[i, j, 0, 0, 0], SymReal) else tm.const(inv[i, j, 0, 0, 0])), gv[j][k])
+                                 for j in range(3)])
+                    sp = tm.eq(e, tm.ONE if i == k else tm.ZERO)
+                    if failing is None and c.valid(sp) is not True:
+                        failing = sp
+            return failing is None, failing
+        n3 = 0
+        bad3 = []
+        try:
+            for c, (ok, failing) in explore(run3, pre=[], backend='z3old', decide_timeout=30, max_paths=16):
+                n3 += 1
+                if ok is not True:
+                    c.pc.append(tm.bnot(failing))
+                    v, model = c.model()
+                    c.pc.pop()
+                    bad3.append(('inverse3', {k: str(x) for k, x in model.items() if x is not None}))
+        except Inconclusive as e:
+            report.inconc('inverse3', str(e))
+        report.record('maths.inverse3(g) g == identity for every positive-definite g (every path, any determinant)',
+                      'unsat' if not bad3 else 'sat', sha=f'{n3}p', group='division helpers (forking symbolic execution)')
+    report.extra['division_helper_paths'] = dict(safe_division=paths, inverse3=n3)
+    for kind, model in (bad + bad3)[:2]:
+        rp = replay_division(kind, model)
+        if rp['reproduces']:
+            report.violation(f'division:{kind}', f"{kind}: on the path with model {model} the real code returns {rp['got']} where the "
+                             f"quotient / inverse is {rp['want']}", report.write_replay(f'division_{kind}', dict(kind=kind, model=model, replay=rp)))
+        else:
+            report.harness_errors.append(f'{kind}: path model {model} does not reproduce on floats: {rp}')
+
+
+def replay_division(kind, model):
+    from fractions import Fraction as F
+    from aurel import maths
+    with np.errstate(all='ignore'):
+        if kind == 'safe_division':
+            a = float(F(model.get('sa', '1')))
+            b = float(F(model.get('sb', '0')))
+            if a == 0.0:
+                a = 1.0
+            got = float(maths.safe_division(np.full((2, 2, 2), a), np.full((2, 2, 2), b))[0, 0, 0])
+            want = a / b if b != 0 else 0.0
+            return dict(a=a, b=b, got=got, want=want, reproduces=abs(got - want) > 1e-9 * max(1.0, abs(want)))
+        g = np.zeros((3, 3, 2, 2, 2))
+        for i in range(3):
+            for j in range(i, 3):
+                g[i, j] = g[j, i] = float(F(model.get(f'g{i}{j}', '1' if i == j else '0')))
+        got = maths.inverse3(g)[:, :, 0, 0, 0]
+        want = np.linalg.inv(g[:, :, 0, 0, 0])
+        d = float(np.max(np.abs(got - want)))
+        return dict(got=got.tolist(), want=want.tolist(), reproduces=d > 1e-6 * float(np.max(np.abs(want))))
+
+
 def replay_payload(payload):
+    if payload.get('kind') in ('safe_division', 'inverse3'):
+        rp = replay_division(payload['kind'], payload['model'])
+        print(rp)
+        return 1 if rp['reproduces'] else 0
     from .common import replay_blocks
     return replay_blocks(build, payload)
